@@ -55,6 +55,27 @@ def run(ctx):
             fa, fb = fields(first[l]), fields(first.get(t, ""))
             if first[l].startswith("ok") and (fa.get("sig") != fb.get("sig") or fa.get("cb") != fb.get("sk")):
                 ctx.fail("SigningKey::try_sign and the byte-level sign disagree (signature or successor key)", [l, t], first.get(t, "")[:200], first[l][:200])
+    # results must not depend on the scratch (aux) buffer a caller happens to pass, in particular not on what *other* keys did
+    # with it before: fresh, left behind by another key's sign, filled by another key's keygen
+    for H in ("S32", "K24"):
+        n = HASHES[H]
+        ps = [(2, 5), (3, 1)]
+        seedA, seedB = rng.bytes_(n), rng.bytes_(n)
+        prep = ctx.both([Case(sign_line(H, sk_blob(H, ps, seedA, 2), b"A", "accept", bytes(600)), "scratch/prepare-by-sign"),
+                         Case(keygen_line(H, ps, seedA, bytes(600)), "scratch/prepare-by-keygen")], None)
+        left_by_sign = unhx(fields(prep[0][1]).get("aux", "-"))
+        left_by_keygen = unhx(fields(prep[1][1]).get("aux", "-"))
+        reqs = []
+        for tag, ax in (("none", None), ("fresh", bytes(600)), ("left-by-other-keys-sign", left_by_sign), ("left-by-other-keys-keygen", left_by_keygen)):
+            reqs.append(Case(sign_line(H, sk_blob(H, ps, seedB, 5), b"B", "accept", ax), "scratch/sign/" + tag))
+            reqs.append(Case(keygen_line(H, ps, seedB, ax), "scratch/keygen/" + tag))
+        res = ctx.both(reqs, None)
+        for i in (0, 1):
+            base = fields(res[i][1])
+            for c, a, b in res[i::2]:
+                f = fields(a)
+                if (f.get("sig"), f.get("cb"), f.get("sk"), f.get("vk")) != (base.get("sig"), base.get("cb"), base.get("sk"), base.get("vk")):
+                    ctx.fail("the result depends on the scratch buffer another key used before (%s)" % c.cls, [c.line[:300]], a[:120], res[i][1][:120])
     # ambient inventory (kernel-checked in Props/C09.lean); repeat the reading here for the evidence
     meta = json.load(open(os.path.join(LEAN, "HbsLms", "Generated", "meta.json")))
     bad = [a for a in meta["ambient"] if not a["fast_verify_only"]]
